@@ -244,7 +244,9 @@ static void store(Type *ty) {
     println("  movsd %%xmm0, (%%rdi)");
     return;
   case TY_LDOUBLE:
+    // An assignment is an expression: keep its value on the x87 stack.
     println("  fstpt (%%rdi)");
+    println("  fldt (%%rdi)");
     return;
   }
 
@@ -387,9 +389,18 @@ static char *cast_table[][11] = {
   {f80i8, f80i16, f80i32, f80i64, f80u8, f80u16, f80u32, f80u64, f80f32, f80f64, NULL},   // f80
 };
 
+// A value that is not used must not stay on the x87 register stack.
+// (ND_NULL_EXPR and ND_MEMZERO have no type.)
+static void discard(Type *ty) {
+  if (ty && ty->kind == TY_LDOUBLE)
+    println("  fstp %%st(0)");
+}
+
 static void cast(Type *from, Type *to) {
-  if (to->kind == TY_VOID)
+  if (to->kind == TY_VOID) {
+    discard(from);
     return;
+  }
 
   if (to->kind == TY_BOOL) {
     cmp_zero(from);
@@ -818,11 +829,17 @@ static void gen_expr(Node *node) {
     store(node->ty);
     return;
   case ND_STMT_EXPR:
-    for (Node *n = node->body; n; n = n->next)
-      gen_stmt(n);
+    for (Node *n = node->body; n; n = n->next) {
+      // The last expression statement is the value of the whole expression.
+      if (!n->next && n->kind == ND_EXPR_STMT)
+        gen_expr(n->lhs);
+      else
+        gen_stmt(n);
+    }
     return;
   case ND_COMMA:
     gen_expr(node->lhs);
+    discard(node->lhs->ty);
     gen_expr(node->rhs);
     return;
   case ND_CAST:
@@ -1231,8 +1248,10 @@ static void gen_stmt(Node *node) {
     }
     gen_stmt(node->then);
     println("%s:", node->cont_label);
-    if (node->inc)
+    if (node->inc) {
       gen_expr(node->inc);
+      discard(node->inc->ty);
+    }
     println("  jmp .L.begin.%d", c);
     println("%s:", node->brk_label);
     return;
@@ -1314,6 +1333,7 @@ static void gen_stmt(Node *node) {
     return;
   case ND_EXPR_STMT:
     gen_expr(node->lhs);
+    discard(node->lhs->ty);
     return;
   case ND_ASM:
     println("  %s", node->asm_str);
